@@ -72,7 +72,9 @@ def job():
          "void harness(void) {",
          "  number_of_levels_ = nondet_int(); extrapolation_ = nondet_int(); FMG_ = nondet_bool();",
          "  __CPROVER_assume(2 <= number_of_levels_ && number_of_levels_ <= MAXL);   /* chooseNumberOfLevels (C18) */",
+         "  const int L0 = number_of_levels_, E0 = extrapolation_; const _Bool F0 = FMG_;",
          "  setup_tail();",
+         "  __CPROVER_assert(number_of_levels_ == L0 && extrapolation_ == E0 && FMG_ == F0, \"OBL:setup leaves the options and the level count it works from unchanged\");",
          "  const int L = number_of_levels_;",
          "  const _Bool valid = extrapolation_ >= 0 && extrapolation_ <= 3;",
          "  const _Bool needs_ext = extrapolation_ == ExtrapolationType_IMPLICIT_EXTRAPOLATION || extrapolation_ == ExtrapolationType_COMBINED || !valid;",
